@@ -35,6 +35,13 @@ type Scenario struct {
 	// the second life cycle on the same Server value (misuse restartAfterShutdown); the zero value is
 	// the simplest one: after run 1 is completely over, one fast exchange, Shutdown
 	Restart Restart
+	// Server.WriteTimeout in milliseconds (round 9): 0 = not set (the library's default, 2 s) | 1, 2, 5 =
+	// shorter than the time a held handler takes to answer once Shutdown has been called (HoldMs, and
+	// Restart.HoldMs for the second run, are then mostly stretched beyond it) | 3600000. The statement
+	// puts no time limit on "replies written by those handlers are still delivered": a handler that was
+	// started gets its reply through however long after the Shutdown call it writes it, whatever the
+	// server's timeouts are. (The pinned library does not use the field at all.)
+	WriteTimeoutMs int `json:",omitempty"`
 }
 
 // Restart describes the second run of the same Server value. Its clients are numbered 9, 10, ...
@@ -482,6 +489,17 @@ func drawExtras(t *rapid.T, s *Scenario) {
 		if m.Sd == "decorate" && m.At == "readerWithoutPacketConn" && pbt.Known(knownSdInsideFailingStart) {
 			pbt.Excluded(knownSdInsideFailingStart)
 			m.Sd = ""
+		}
+	}
+	// round 9, drawn after everything else: the server's write timeout, and - when it is a short one -
+	// handlers that answer later than that after the Shutdown call
+	s.WriteTimeoutMs = rapid.SampledFrom([]int{0, 0, 0, 1, 1, 2, 2, 5, 3600000}).Draw(t, "writeTimeoutMs")
+	if s.WriteTimeoutMs > 0 && s.WriteTimeoutMs <= 5 && rapid.IntRange(0, 3).Draw(t, "answerPastWriteTimeout") > 0 {
+		if min := 3*s.WriteTimeoutMs + 4; s.HoldMs < min {
+			s.HoldMs = min
+		}
+		if min := 3*s.WriteTimeoutMs + 4; s.hasRestart() && s.Restart.HoldMs < min {
+			s.Restart.HoldMs = min
 		}
 	}
 }
